@@ -278,3 +278,7 @@ def run(ctx):
         if left and len(left) < 2:
             ctx.report('property', f'normalising to positive {"down" if want_down else "up"} was accepted and converted only some of the '
                        f'depth coordinates: {left} still {"up" if up else "down"}', case)
+    # ---- which variables the accessor takes for the depth coordinates it normalises ("all depth coordinates"): the same leg as
+    # C12 runs (model DepthCoord, theorems in Props/C12.v) - c12 imports this module, hence the late import
+    from props.c12 import depth_coordinate_leg
+    depth_coordinate_leg(ctx)
